@@ -274,6 +274,16 @@ CHECKS["C17"] = dict(
     ],
 )
 
+CHECKS["C04"] = dict(
+    level_text="Partial, as stated in DESIGN.md: the real Send (synthetic view) and the real Receive (model file system) run together under the canonical schedule with one injected fault whose kind and operation index are solver-chosen (send/recv error on either endpoint, walk error at entry k, read error inside a file, open error, content-hasher or notify callback error, context cancellation at the k-th packet). When nothing can make progress the harness tears the transport down; the engine reports a deadlock if either call still does not return. Shown for every fault placement inside the bounds: both calls return and all their goroutines end; Receive succeeds only if the destination equals the source view; Send succeeds only if the receiver's FIN reached it; a following fault-free transfer into the left-over destination converges.",
+    level_note="Bounds: view {d/, d/f (1 byte), e (2 bytes)}, destination fresh or dirty, 11 fault kinds x operation index 1..8 (quick) / 1..14 (thorough). NOT covered: any schedule other than the canonical one, wall-clock bounds, SIGKILL of the receiving process (only 'abandon and re-run'), >132 pending requests, blocked/slow streams. " + FS_TRUST + BASE_TRUST,
+    assumptions=["'once the stream is torn down' is modelled by the caller breaking the in-memory transport and cancelling the context when every goroutine is blocked", "one schedule only: liveness under other interleavings is not claimed"],
+    obligations=[
+        ob("VH_C04_faults", dict(K=8), Q, covers=["teardown-needed", "receive-success", "receive-failure", "send-success", "send-failure"], bounds="11 fault kinds x index 1..8"),
+        ob("VH_C04_faults", dict(K=14), T, covers=["teardown-needed", "receive-success", "receive-failure", "send-success", "send-failure"], bounds="11 fault kinds x index 1..14"),
+    ],
+)
+
 NOT_APPLICABLE = {
     "C08": "quantifies over schedules and includes data-race freedom and non-overlap of stream calls; the hand-written SSA executor runs goroutines under one cooperative schedule and cannot enumerate interleavings or observe races, and no Go engine that can is installed (DESIGN.md §7)",
 }
